@@ -437,6 +437,7 @@ func init() {
 		loc := xy.LocatePointInRing(l, p, ring)
 		return []any{xy.IsPointInRing(l, p, ring), int(loc), loc.String(), string(loc.Symbol()), xy.IsOnLine(l, p, ring), xy.SignedArea(l, ring), xy.DistanceFromPointToLineString(l, p, ring)}
 	})
+	reg("xy.IsOnLine", []string{"f", "c"}, func(c *Call, a []*item) any { return xy.IsOnLine(a[0].layout, a[1].c, a[0].f) })
 	reg("xy.IsRingCounterClockwise", []string{"f"}, func(c *Call, a []*item) any { return xy.IsRingCounterClockwise(a[0].layout, a[0].f) })
 	reg("xy.Distances", []string{"c", "c", "c", "c"}, func(c *Call, a []*item) any {
 		p, q, r, s := a[0].c, a[1].c, a[2].c, a[3].c
